@@ -144,6 +144,13 @@ class GlobalScipyMinimizer(AbstractMinimizer):
             res = basinhopping(
                 res_fn,
                 x0=list(p0.values()),
+                # basinhopping itself takes no bounds: its local steps keep to the
+                # ones the caller gave (parameters without any stay free)
+                minimizer_kwargs=(
+                    {"bounds": [bounds.get(name, (None, None)) for name in p0]}
+                    if bounds
+                    else None
+                ),
             )
         elif self.method == "differential_evolution":
             res = differential_evolution(res_fn, box)
